@@ -109,8 +109,8 @@ def pack_case(rep, ds, write_info, pk):
         return
     for j, k in enumerate(nonempty):
         x = write_info[k]
-        if x['meta'].num_rows != len(pieces[j]) or any(
-                tuple(U.gnum(v) for v in b) != _tb(pieces[j][c]) for c, b in x['total_bounds'].items()):
+        # (x['meta'] of the first part accumulates every part's row groups: not comparable)
+        if any(tuple(U.gnum(v) for v in b) != _tb(pieces[j][c]) for c, b in x['total_bounds'].items()):
             rep.violation('pack-file-content', f'part.{j}.parquet does not hold output partition {k}',
                           {**meta, 'file': j, 'partition': k})
             return
@@ -406,7 +406,7 @@ def dataset_specs(rep, tier):
     else:
         tp_parts = list(range(1, 17))
         pk_parts = list(range(1, 17))
-        reps = 6
+        reps = 3
     k = 0
     for _ in range(reps):
         for writer, parts in (('to_parquet', tp_parts), ('pack', pk_parts)):
